@@ -73,6 +73,22 @@ class VIntSet(V):
         return self.member_z(x.z)
 
 
+class VIntBag(V):
+    """a local list of ints that a loop grows by append: the multiset of its elements, cnt[x] = multiplicity (the order is not modelled)"""
+    kind = 'intbag'
+
+    def __init__(self, cnt):
+        self.cnt = cnt
+
+
+def m_intbag_append(interp, recv, argv, kwv):
+    x = argv[0]
+    if x.kind != 'int':
+        raise Undecided('append of a %s to a list of ints grown in a loop' % x.kind)
+    recv.cnt = z3.Store(recv.cnt, x.z, recv.cnt[x.z] + 1)
+    return VNone
+
+
 class VMap(V):
     """a locally built dict with symbolic int keys: dom(q) -> Bool, get(q) -> V"""
     kind = 'vmap'
@@ -230,6 +246,12 @@ def next_(interp, argv):
 
 
 def set_(interp, argv):
+    v = argv[0] if argv else None
+    if v is not None and v.kind == 'intbag':
+        cnt = v.cnt
+        return VIntSet(lambda q: cnt[q] >= 1, lambda q: [cnt[q]], 'set_of_list')
+    if v is not None and v.kind == 'list' and not v.esc and not v.items:
+        return VIntSet(lambda q: z3.BoolVal(False), None, 'empty_set')
     raise Undecided('set()')
 
 
